@@ -147,7 +147,24 @@ func HTTPError(w http.ResponseWriter, msg string, code int) {
 	HTTPErrors = append(HTTPErrors, HTTPErr{msg, code})
 }
 
+// ServerServe stands for (*http.Server).Serve: the accept loop of the HTTP
+// server; what net/http does with an accepted connection (request parsing,
+// routing to the handler) is outside every claim, the harness calls the
+// handler itself.
+var Served []net.Conn
+
+func ServerServe(srv *http.Server, l net.Listener) error {
+	for {
+		c, err := l.Accept()
+		if err != nil {
+			return err
+		}
+		Served = append(Served, c)
+	}
+}
+
 func Reset() {
+	Served = nil
 	States = map[*websocket.Conn]*State{}
 	DialOutcome = nil
 	NextUpgrade = nil
